@@ -131,6 +131,9 @@ def run(ctx: Ctx):
     # ------------------------------------------------------------- SUITE: calls observed in the repository's own tests
     from vf import suite
     suite.step(ctx, "fold", ["P:C06"])
+    # ------------------------------------------------------------- FRESH: history independence incl. failing calls (spec/Fresh.tla)
+    from vf import fresh
+    fresh.step(ctx, "C06")
     return ctx.finish(rule=(
         "all lines over {a, e-acute(2), euro(3), emoji(4), SP, CR} up to length 7/8 at limits 6..10, the family "
         "a^i w a^j (i 60..80, w <=2 wide symbols) at limit 75, random lines of 50..400 characters and all long or "
